@@ -196,6 +196,8 @@ Mutants(c) ==
   \* again by a derived attribute
   \cup (IF c.inh = "chain" THEN {[M("inherited_redeclared", 3, "a1", "OVERLOADED_ATTR") EXCEPT !.pos = "indirect"]} ELSE {})
   \cup (IF c.inh # "none" THEN {[M("inherited_redeclared", 2, "a1", "OVERLOADED_ATTR") EXCEPT !.pos = "derive"]} ELSE {})
+  \* defined types that rename each other in a circle (two, three, one): there is no underlying type
+  \cup {[M("type_cycle", 0, "", "CIRCULAR_REFERENCE") EXCEPT !.pos = p] : p \in {"two", "three", "self", "two_used"}}
   \cup {M("select_cycle", 0, "", "SELECT_LOOP")}
   \* the same cycle with entity members, and an expression that has to look through the cyclic select (attribute  \*
   \* access and group qualification on a value of that type), entity member before or after the select member
@@ -205,13 +207,15 @@ Mutants(c) ==
 (* lexical mutants (C20): the offending character / identifier / count must be the one quoted *)
 (* the same faults with the offending name made long (stretch: that many characters are appended to it wherever it  *)
 (* occurs): a diagnostic must quote the whole name, and what follows the name in the message, whatever its length    *)
-Stretched(c) == {[m EXCEPT !.stretch = k] : m \in {x \in Mutants(c) : x.class \in {"undef_type", "dup_entity", "undef_supertype", "undef_function"} /\ x.pos = ""},
+Stretched(c) == {[m EXCEPT !.stretch = k] : m \in {x \in Mutants(c) : x.class \in {"undef_type", "dup_entity", "undef_supertype", "undef_function", "undef_schema"} /\ x.pos = ""},
                                              k \in {150, 400}}
                 \cup {[M("lex_underscore_ident", 1, "_bad", "BAD_IDENTIFIER") EXCEPT !.stretch = 200], [M("argcount", 1, "f1x", "WRONG_ARG_COUNT") EXCEPT !.stretch = 180]}
 LexMutants ==
   {M("lex_underscore_ident", 1, "_bad", "BAD_IDENTIFIER"), M("lex_unexpected_char", 1, "~", "UNEXPECTED_CHARACTER"),
    M("lex_nonascii", 1, "0xe9", "NONASCII_CHAR"), M("lex_bad_hex_digit", 1, "G", "ENCODED_STRING_BAD_DIGIT"),
-   M("lex_bad_hex_count", 1, "6", "ENCODED_STRING_BAD_COUNT"), M("argcount", 1, "f1x", "WRONG_ARG_COUNT")}
+   M("lex_bad_hex_count", 1, "6", "ENCODED_STRING_BAD_COUNT"), M("argcount", 1, "f1x", "WRONG_ARG_COUNT"),
+   \* the function named without an argument list at all
+   [M("argcount", 1, "f1x", "WRONG_ARG_COUNT") EXCEPT !.pos = "noargs"]}
 
 (* ------------------------------------------------------------------ files the C++ generator writes (C17) *)
 (* one header/implementation pair per entity, per enumeration and per select that is declared with its own items / *)
